@@ -195,6 +195,48 @@ class ElemSets:
         self._ret[key] = out
         return out
 
+    def ret_elems_at(self, m, consts, call, func, depth):
+        """elements method m can return when called as `call` inside
+        `func`: return paths of m whose conditions contradict the conditions
+        known at the call (after substituting the receiver for self) or the
+        constant arguments are dropped.  None if not decidable."""
+        from .paths import return_paths
+        from . import relfacts as RF
+        paths = return_paths(m, max_paths=600, inline=False)
+        if not paths:
+            return None
+        known = RF.facts_at(func, call)
+        if known is None:
+            return None
+        recv = call.func.value
+        out = set()
+        self.rel_log = getattr(self, 'rel_log', [])
+        kept = 0
+        for p in paths:
+            if p.value is None:
+                continue
+            atoms = []
+            feasible = True
+            for (t, pol), pos in zip(p.facts, p.fact_pos):
+                a = RF.simplify(t, pol, consts, p, pos)
+                if a is False:
+                    feasible = False
+                    break
+                atoms += a
+            if not feasible:
+                continue
+            atoms = [RF.subst_self(a, recv) for a in atoms]
+            if any(RF.contradict(a, k) for a in atoms for k in known):
+                continue
+            kept += 1
+            s = self.elems(p.value, m, {}, depth + 1, use=p.ret_stmt)
+            if s is None:
+                return None
+            out |= s
+        self.rel_log.append((func.qualname, norm(call, 60), len(paths), kept,
+                             sorted(out)))
+        return out if kept else None
+
     def recv_class(self, e, func, tenv):
         """repo class of a receiver expression, when evident"""
         if isinstance(e, ast.Name):
@@ -261,6 +303,16 @@ class ElemSets:
                                     isinstance(d_, ast.Constant):
                                 consts[p_] = d_.value
                         r = self.ret_elems(m, depth + 1, consts)
+                        if r is not None and len(r) > 1:
+                            # which element is returned depends on the
+                            # receiver's state: keep only the return paths
+                            # compatible with the conditions that hold at
+                            # the call
+                            rr = self.ret_elems_at(m, consts, e, func,
+                                                   depth + 1)
+                            if rr is not None:
+                                # exact for the conditions at the call
+                                return rr
                         if r is not None and len(r) > 1:
                             self.state_dependent = True
                         return r
